@@ -138,7 +138,7 @@ Definition c06_call (a : trait_attr) (contains_async : bool) (s : sig) : toks :=
   | Some it, Some (ByRef RBorrow) =>
       [pc "<"; TId "EntraitT"; TId "as"] ++ abs_path ["core"; "borrow"; "Borrow"] ++ dynarg it ++ path_sep ++
       [TId "borrow"; TG Paren [pc "&"; pc "*"; TId "self"]; pc "."; TId m; TG Paren ([TId "self"; comma] ++ args)]
-  | _, _ => [TId "self"; pc "."; TId "as_ref"; TG Paren []; pc "."; TId m; TG Paren args]
+  | _, _ => [TId "self"; pc "."; TId (if plain_self_by_value s then "into_inner" else "as_ref"); TG Paren []; pc "."; TId m; TG Paren args]
   end.
 
 Fixpoint c06_methods (a : trait_attr) (contains_async : bool) (src : list (list attr * sig))
@@ -179,7 +179,7 @@ Definition c07_target_sig (dynamic : bool) (s : sig) : toks :=
   match p_items (s_inputs s) with
   | ArgRecv _ r _ _ :: rest =>
       let args := if dynamic then
-                    p_insert 1 impl_receiver (s_inputs s)
+                    p_insert 1 (impl_receiver_lt (ref_lifetime r)) (s_inputs s)
                   else mkP ((match r with
                              | Some l => ArgTyped [] (PIdent false false "__impl" []) (TyRef l false impl_path_fty)
                              | None => ArgTyped [] (PIdent false false "__impl" []) impl_path_fty
@@ -194,7 +194,7 @@ Definition c07_target_sig_full (dynamic async_trait send : bool) (s : sig) : tok
   if s_async s && negb async_trait then
     match p_items (s_inputs s) with
     | ArgRecv _ r _ _ :: rest =>
-        let args := if dynamic then p_insert 1 impl_receiver (s_inputs s)
+        let args := if dynamic then p_insert 1 (impl_receiver_lt (ref_lifetime r)) (s_inputs s)
                     else mkP ((match r with
                                | Some l => ArgTyped [] (PIdent false false "__impl" []) (TyRef l false impl_path_fty)
                                | None => ArgTyped [] (PIdent false false "__impl" []) impl_path_fty
